@@ -388,4 +388,106 @@ theorem readyL_of_sub (refs : String → List String) :
       readyL_of_sub refs ns later (List.nodup_append.mp hnd).2.1 hs.2⟩
 end
 
+/-! ## 13. the final names do not depend on the order in which the generators are created -/
+
+theorem ext_of_lookup {A B : NameMap} (hk : A.map (·.1) = B.map (·.1)) (hnd : (A.map (·.1)).Nodup)
+    (h : ∀ i, lookup A i = lookup B i) : A = B := by
+  induction A generalizing B with
+  | nil => cases B with
+    | nil => rfl
+    | cons b bs => simp at hk
+  | cons a as ih =>
+    cases B with
+    | nil => simp at hk
+    | cons b bs =>
+      simp only [List.map_cons, List.cons.injEq] at hk
+      simp only [List.map_cons, List.nodup_cons] at hnd
+      have h0 := h a.1
+      rw [lookup_cons, lookup_cons] at h0
+      simp only [if_true, hk.1] at h0
+      have hab : a = b := Prod.ext hk.1 h0
+      subst hab
+      congr 1
+      apply ih hk.2 hnd.2
+      intro i
+      have hi := h i
+      rw [lookup_cons, lookup_cons] at hi
+      by_cases hai : a.1 = i
+      · -- `i` is the key of the head: it does not occur in the tails
+        have n1 : lookup as i = none := by
+          cases hl : lookup as i with
+          | none => rfl
+          | some n => exact absurd (hai ▸ List.mem_map_of_mem (mem_of_lookup hl)) hnd.1
+        have n2 : lookup bs i = none := by
+          cases hl : lookup bs i with
+          | none => rfl
+          | some n =>
+            have : i ∈ bs.map (·.1) := List.mem_map_of_mem (mem_of_lookup hl)
+            rw [← hk.2] at this
+            exact absurd (hai ▸ this) hnd.1
+        rw [n1, n2]
+      · simpa [hai] using hi
+
+/-- `convAll` on pairwise distinct indices: every index of the list is converted exactly once -/
+theorem convAll_spec (c : RenderCfg) (o : RenderOracles) :
+    ∀ (is : List String) (N N' : NameMap), convAll c o N is = .ok N' → is.Nodup →
+      N'.map (·.1) = N.map (·.1) ∧ (∀ j, j ∉ is → lookup N' j = lookup N j) ∧
+      ∀ i ∈ is, ∃ n n', lookup N i = some n ∧ convertClassName c o n = .ok n' ∧ lookup N' i = some n' := by
+  intro is
+  induction is with
+  | nil =>
+    intro N N' h _
+    simp only [convAll, List.foldlM_nil, pure, Except.pure] at h
+    injection h with h; subst h
+    simp
+  | cons i is ih =>
+    intro N N' h hnd
+    simp only [convAll, List.foldlM_cons] at h
+    rw [bind_eq_ok] at h
+    obtain ⟨N2, h2, h3⟩ := h
+    simp only [List.nodup_cons] at hnd
+    obtain ⟨k, f, cv⟩ := ih N2 N' h3 hnd.2
+    obtain ⟨n, n', hl, hc, rfl⟩ := convertNameAt_ok h2
+    refine ⟨by rw [k, set_keys], ?_, ?_⟩
+    · intro j hj
+      simp only [List.mem_cons, not_or] at hj
+      rw [f j hj.2, lookup_set_ne _ _ hj.1]
+    · intro x hx
+      rcases List.mem_cons.mp hx with rfl | hx'
+      · refine ⟨n, n', hl, hc, ?_⟩
+        rw [f x hnd.1, lookup_set_self, any_of_lookup hl]; rfl
+      · obtain ⟨a, b, ha, hb, hc'⟩ := cv x hx'
+        have : x ≠ i := fun e => hnd.1 (e ▸ hx')
+        exact ⟨a, b, by rw [← ha, lookup_set_ne _ _ this], hb, hc'⟩
+
+/-- **convAll_perm**: two creation orders over the same (pairwise distinct) indices end with the same names -/
+theorem convAll_perm {c : RenderCfg} {o : RenderOracles} {N N₁ N₂ : NameMap} {is₁ is₂ : List String}
+    (hk : (N.map (·.1)).Nodup) (hp : is₁.Perm is₂) (hnd : is₁.Nodup)
+    (h₁ : convAll c o N is₁ = .ok N₁) (h₂ : convAll c o N is₂ = .ok N₂) : N₁ = N₂ := by
+  obtain ⟨k1, f1, c1⟩ := convAll_spec c o _ _ _ h₁ hnd
+  obtain ⟨k2, f2, c2⟩ := convAll_spec c o _ _ _ h₂ (hp.nodup_iff.mp hnd)
+  apply ext_of_lookup (k1.trans k2.symm) (k1 ▸ hk)
+  intro i
+  by_cases hi : i ∈ is₁
+  · obtain ⟨a, b, ha, hb, hc⟩ := c1 i hi
+    obtain ⟨a', b', ha', hb', hc'⟩ := c2 i (hp.mem_iff.mp hi)
+    have : a = a' := Option.some.inj (ha.symm.trans ha')
+    subst this
+    have : b = b' := Except.ok.inj (hb.symm.trans hb')
+    rw [hc, hc', this]
+  · rw [f1 i hi, f2 i (fun h => hi (hp.mem_iff.mpr h))]
+
+/-! ## 14. names that the conversion leaves alone -/
+
+/-- `StableOn c o F is`: the recorded name of every `i ∈ is` is a fixed point of `convert_class_name` -/
+def StableOn (c : RenderCfg) (o : RenderOracles) (F : NameMap) (is : List String) : Prop :=
+  ∀ i ∈ is, ∀ n, lookup F i = some n → convertClassName c o n = .ok n
+
+theorem fixedOn_of_stable {c : RenderCfg} {o : RenderOracles} {F : NameMap} {is : List String}
+    (hnd : (F.map (·.1)).Nodup) (hsome : ∀ i ∈ is, ∃ n, lookup F i = some n) (hs : StableOn c o F is) :
+    FixedOn c o F is := by
+  intro i hi
+  obtain ⟨n, hn⟩ := hsome i hi
+  rw [convertNameAt_eq hn (hs i hi n hn), set_same hnd hn]
+
 end J2M.Rend2
